@@ -53,6 +53,22 @@ def tree_sx(t):
     return '(%s %s %s (%s))' % (dopts_sx(t['opts']), psec(t['pre']), msec(t['meta']), ' '.join(chg(c) for c in t['changes']))
 
 
+def has_mixed_keys(x):
+    if isinstance(x, dict):
+        ks = list(x.keys())
+        if any(isinstance(k, str) and k.startswith(sl.KEY_INT) for k in ks) and any(not (isinstance(k, str) and k.startswith(sl.KEY_INT)) for k in ks):
+            return True
+        return any(has_mixed_keys(v) for v in x.values())
+    if isinstance(x, (list, tuple)):
+        return any(has_mixed_keys(v) for v in x)
+    return False
+
+
+def skey(snap):
+    """Comparison key of a snapshot: dictionary order does not matter, int and str keys stay distinct."""
+    return json.dumps(snap, sort_keys=True, default=repr)
+
+
 def snapshot(d):
     """Structural dump of a live DiffX tree into tree JSON (reads attributes only)."""
     def opts(o):
@@ -61,8 +77,16 @@ def snapshot(d):
     def psec(s):
         return dict(opts=opts(s.options), content=s.content)
 
+    def keep(x):
+        # a JSON-able copy that keeps int and str dictionary keys apart (json.dumps would write both as strings)
+        if isinstance(x, dict):
+            return {sl.case_key(k): keep(v) for k, v in x.items()}
+        if isinstance(x, (list, tuple)):
+            return [keep(v) for v in x]
+        return x
+
     def msec(s):
-        return dict(opts=opts(s.options), content=json.loads(json.dumps(s.content)) if _jsonable(s.content) else {'__unjsonable__': repr(s.content)})
+        return dict(opts=opts(s.options), content=keep(s.content) if _jsonable(s.content) else {'__unjsonable__': repr(s.content)})
 
     def dsec(s):
         return dict(opts=opts(s.options), content=None if s.content is None else bytes(s.content).hex())
@@ -553,11 +577,32 @@ class Stats(Family):
         for i in range(300 if tier == 'quick' else 8000):
             t, e = gen_stats_tree(rng)
             yield dict(kind='tree', tree=t, expect=e)
+            # statistics generated once while the diff options are not yet set, then the options are assigned on the same
+            # objects and statistics are generated again: the result depends on the tree as it is NOW
+            if any('encoding' in f['diff']['opts'] or 'line_endings' in f['diff']['opts'] for ch in t['changes'] for f in ch['files']):
+                yield dict(kind='regen', tree=t, expect=e)
 
     def _impl(self, c):
         if '_impl' not in c:
             try:
-                d = build(c['tree'])
+                if c['kind'] == 'regen':
+                    t0 = json.loads(json.dumps(c['tree']))
+                    later = []
+                    for ci, ch in enumerate(t0['changes']):
+                        for fi, f in enumerate(ch['files']):
+                            for k in ('encoding', 'line_endings'):
+                                if k in f['diff']['opts']:
+                                    later.append((ci, fi, 'diff_' + k, sl.pyval(f['diff']['opts'].pop(k))))
+                    d = build(t0)
+                    d.generate_stats()
+                    for ci, fi, attr, val in later:
+                        setattr(d.changes[ci].files[fi], attr, val)
+                    # what the first generation stored is part of the starting point of the second one
+                    for ci, ch in enumerate(t0['changes']):
+                        for fi, f in enumerate(ch['files']):
+                            c['expect'][ci][fi] = dict(c['expect'][ci][fi], old=d.changes[ci].files[fi].meta.get('stats'))
+                else:
+                    d = build(c['tree'])
                 before = snapshot(d)
                 d.generate_stats()
                 s1 = snapshot(d)
@@ -582,7 +627,7 @@ class Stats(Family):
         return sl.collapse_exc(line)
 
     def key(self, c):
-        return json.dumps(c['tree'], sort_keys=True)
+        return json.dumps([c['kind'], c['tree']], sort_keys=True)
 
     def nontrivial(self, c):
         return any(f['kind'] == 'text' for ce in c['expect'] for f in ce)
@@ -831,7 +876,8 @@ def gen_ops(rng, n_ops):
         elif r < 0.72:
             p, names = pick_path(i)
             key = rng.choice(['k', 'stats', 'x'])
-            ops.append(['meta_put', i, p, key, {'n': 1, 'insertions': 2} if key == 'stats' else rng.choice([1, True, 'v', [1], {'n': 1}, None])])
+            ops.append(['meta_put', i, p, key, {'n': 1, 'insertions': 2} if key == 'stats' else rng.choice([1, True, 'v', [1], {'n': 1}, None, {'__key_int__:1001': 'alice'}, [{'__key_int__:7': {'x': 1}}],
+                                                                                                          {'__key_int__:1': 'a', 'b': 2}, {'b': 2, '__key_int__:1': 'a'}])])
         elif r < 0.78:
             p, names = pick_path(i)
             sel = rng.choice(['self', 'meta'] + (['pre'] if p == 'main' or p[0] == 'c' else ['diff']))
@@ -891,6 +937,10 @@ class Alias(Family):
 
     def model_line(self, c):
         obs, steps, orc = self._impl(c)
+        if has_mixed_keys(c['ops']):
+            # a dictionary with an int key next to a str key: equal to its reordering, yet not serialisable (the keys cannot
+            # be sorted); the value-level model has no such value, so these cases are judged by the oracles alone
+            return None
         return L('dom_ops', orc, '(' + ' '.join(op_sx(o) for o in c['ops']) + ')')
 
     def impl_obs(self, c):
@@ -917,7 +967,7 @@ class Alias(Family):
             for j in range(min(len(prev), len(snaps))):
                 if j == target and n in ('add_change', 'add_file', 'set', 'meta_put', 'opt_put', 'stats') and res != '(exc)':
                     continue
-                if tree_sx(prev[j]) != tree_sx(snaps[j]):
+                if skey(prev[j]) != skey(snaps[j]):
                     if n in ('to_bytes', 'eq'):
                         out.append(('C18', 'observer-mutated', 'op %d (%s) changed tree %d' % (k, n, j)))
                     elif res == '(exc)' and j == target and n in ('set', 'add_change', 'add_file'):
@@ -925,7 +975,7 @@ class Alias(Family):
                     else:
                         out.append(('C18', 'aliasing', 'op %d (%s on tree %s) changed tree %d' % (k, n, target, j)))
             if n == 'eq' and res in ('true', 'false'):
-                same = tree_sx(snaps[o[1]]) == tree_sx(snaps[o[2]])
+                same = skey(snaps[o[1]]) == skey(snaps[o[2]])
                 if same and res == 'false':
                     out.append(('C19', 'equal-trees-compare-unequal', 'op %d: structurally identical trees are !=' % k))
                 if (not same) and res == 'true':
@@ -938,10 +988,14 @@ class Alias(Family):
                 out.append(('C18', 'serialise-not-deterministic', 'op %d: DiffX.to_bytes() and a DOM writer give different '
                             'bytes for the same tree' % k))
             if n == 'to_bytes' and res.startswith('#'):
-                key = tree_sx(snaps[o[1]])
-                if key in last_bytes and last_bytes[key] != res:
+                key = skey(snaps[o[1]])
+                if key in last_bytes and last_bytes[key][0] != res:
                     out.append(('C18', 'serialise-not-deterministic', 'op %d: same tree, different bytes' % k))
-                last_bytes[key] = res
+                    if last_bytes[key][1] != o[1]:
+                        out.append(('C19', 'equal-trees-serialise-differently',
+                                    'op %d: trees %d and %d are structurally identical but serialise to different bytes'
+                                    % (k, last_bytes[key][1], o[1])))
+                last_bytes[key] = (res, o[1])
             prev = snaps
             if out:
                 break
@@ -1047,6 +1101,14 @@ class Attrs(Family):
                 extra = [[o[0], o[1], (o[2] if o[2] != -1 else 0)] + o[3:] if o[0] == 'add_file' else o for o in extra]
                 yield dict(kind='perturb-shape', ops=base + base_shift(base) + [['eq', 0, 1]] + extra +
                            [['eq', 0, 1], ['eq', 1, 0], ['to_bytes', 0], ['to_bytes', 1]])
+            # dictionary keys that are not strings: an int key alone (JSON writes it as a string; the tree keeps the int),
+            # and an int next to a str key (cannot be sorted: not serialisable, in whatever order the keys were inserted)
+            for v0, v1 in [({'__key_int__:1001': 'alice'}, {'__key_int__:1001': 'alice'}),
+                           ({'__key_int__:1': 'a', 'b': 2}, {'b': 2, '__key_int__:1': 'a'}),
+                           ({'r': {'__key_int__:1': 'a', 'b': 2}}, {'r': {'b': 2, '__key_int__:1': 'a'}})]:
+                yield dict(kind='perturb-meta', ops=base + base_shift(base) + [['meta_put', 0, ['f', ci, fi], 'who', v0],
+                                                                               ['meta_put', 1, ['f', ci, fi], 'who', v1], ['eq', 0, 1],
+                                                                               ['to_bytes', 0], ['to_bytes', 1], ['eq', 0, 1]])
             for key, v in [('p', True), ('p', 1), ('p', 2), ('z', None)]:
                 yield dict(kind='perturb-meta', ops=base + base_shift(base) + [['meta_put', 1, ['f', ci, fi], key, v], ['eq', 0, 1],
                                                                                ['to_bytes', 0], ['to_bytes', 1]])
